@@ -291,9 +291,11 @@ def static_cases(max_L, max_L_2d, max_color, max_n, seed):
             continue
         if c['cls'] == 'Color666ToricCode' and c['size'][0] != c['size'][1]:
             continue
-        out.append(dict(c, kind='static', rseed=seed * 7919 + i,
-                        direction=list(dirs[(i + seed) % len(dirs)]),
-                        error_rate=[0.05, 0.1, 0.3, 0.5][(i + seed) % 4]))
+        d = list(dirs[(i + seed) % len(dirs)])
+        p = [0.05, 0.1, 0.3, 0.5, 1, 1.0][(i + seed) % 6]
+        if (i + seed) % 3 == 0:       # 0 and 1 written as integers
+            d = [int(v) if v in (0, 1) else v for v in d]
+        out.append(dict(c, kind='static', rseed=seed * 7919 + i, direction=d, error_rate=p))
     return out
 
 
